@@ -47,6 +47,20 @@ type C12Case struct {
 
 var c12FixedTexts = []string{"a", "b", "f", "x", "name", "sym"}
 
+// c12Fill are 300 filler symbols: appended to the fixed table of configuration 3
+// and handed over as a third shared table in configurations 4 and 5, so that
+// symbol IDs around 128 and 256 (where encodings change length) are in reach;
+// c12HighTexts are the ones that land there.
+var c12Fill, c12HighTexts = func() (fill, high []string) {
+	for i := 0; i < 300; i++ {
+		fill = append(fill, fmt.Sprintf("fill_%d", i))
+	}
+	for _, k := range []int{108, 109, 110, 111, 112, 113, 114, 236, 237, 238, 239, 240, 241, 242} {
+		high = append(high, fill[k])
+	}
+	return
+}()
+
 func newC12Writer(config int, out *bytes.Buffer) ion.Writer {
 	switch config {
 	case 0:
@@ -56,15 +70,20 @@ func newC12Writer(config int, out *bytes.Buffer) ion.Writer {
 	case 2:
 		return ion.NewBinaryWriter(out)
 	case 4:
-		return ion.NewBinaryWriter(out, ionSSTs(c12SSTs)...)
+		return ion.NewBinaryWriter(out, c12IonSSTs...)
 	case 5:
-		return ion.NewTextWriter(out, ionSSTs(c12SSTs)...)
+		return ion.NewTextWriter(out, c12IonSSTs...)
 	}
-	return ion.NewBinaryWriterLST(out, ion.NewLocalSymbolTable(nil, c12FixedTexts))
+	return ion.NewBinaryWriterLST(out, c12FixedTable)
 }
 
 // c12SSTs are the shared tables of configurations 4 and 5.
-var c12SSTs = []SharedJ{{Name: "t1", Version: 1, Symbols: []string{"a", "x", "name"}, MaxID: -1}, {Name: "t2", Version: 2, Symbols: []string{"f", "b"}, MaxID: 4}}
+var c12SSTs = []SharedJ{{Name: "t1", Version: 1, Symbols: []string{"a", "x", "name"}, MaxID: -1}, {Name: "t2", Version: 2, Symbols: []string{"f", "b"}, MaxID: 4}, {Name: "fill", Version: 1, Symbols: c12Fill, MaxID: -1}}
+
+// built once: shared and fixed tables are immutable and may serve any number of writers
+var c12IonSSTs = ionSSTs(c12SSTs)
+var c12FixedTable = ion.NewLocalSymbolTable(nil, append(append([]string{}, c12FixedTexts...), c12Fill...))
+var c12RefCatalog = refCatalog(c12SSTs)
 
 var c12ConfigNames = []string{"text", "pretty", "binary", "binary-fixed-lst", "binary+shared-tables", "text+shared-tables"}
 
@@ -343,13 +362,13 @@ func runC12(c C12Case) string {
 	st.Class("stream-checked")
 	var got []model.Value
 	if c12Binary(c.Config) {
-		res, err := refbin.Decode(out, refbin.Options{RequireIVM: true, Catalog: refCatalog(c12SSTs)})
+		res, err := refbin.Decode(out, refbin.Options{RequireIVM: true, Catalog: c12RefCatalog})
 		if err != nil {
 			return fmt.Sprintf("config=%s: final Finish returned nil but the output is not valid Ion binary: %v\noutput: % x\ncalls:%s", cfg, err, clip(out, 300), describeCalls(c, errs))
 		}
 		got = res.Values
 	} else {
-		res, err := reftext.Parse(out, reftext.Options{Catalog: refCatalog(c12SSTs)})
+		res, err := reftext.Parse(out, reftext.Options{Catalog: c12RefCatalog})
 		if err != nil {
 			return fmt.Sprintf("config=%s: final Finish returned nil but the output is not valid Ion text: %v\noutput: %q\ncalls:%s", cfg, err, clip(out, 300), describeCalls(c, errs))
 		}
@@ -375,6 +394,9 @@ func genScalar(t *rapid.T) model.Value {
 }
 
 func c12Sym(t *rapid.T) model.Sym {
+	if gen.Chance(t, 12) {
+		return model.S(gen.Pick(t, c12HighTexts))
+	}
 	if gen.Chance(t, 70) {
 		return model.S(gen.Pick(t, c12FixedTexts))
 	}
@@ -405,6 +427,9 @@ func genC12(t *rapid.T) C12Case {
 			v := genScalar(t)
 			if c.Config == 3 && v.Kind == model.Symbol && !v.IsNull && gen.Chance(t, 80) {
 				v.Sym = model.S(gen.Pick(t, c12FixedTexts))
+			}
+			if v.Kind == model.Symbol && !v.IsNull && gen.Chance(t, 15) {
+				v.Sym = model.S(gen.Pick(t, c12HighTexts))
 			}
 			call = CallJ{Op: "value", Val: &v, Pick: gen.Intn(t, 6)}
 		case k < 10:
@@ -526,7 +551,7 @@ var _ = big.NewInt
 
 func init() {
 	Describe("C12",
-		"cases: (writer configuration in {text, pretty, binary growing table, binary fixed table, binary with two shared tables, text with two shared tables}, call sequence over the whole Writer interface with generated scalar arguments, 1-40 calls biased 75% towards protocol-legal next calls, always ending in Finish, sometimes twice). Plus exhaustive enumeration of every sequence up to length 5 (6 in the thorough tier) over a 9-call alphabet {WriteInt, WriteSymbol, FieldName, Annotation, BeginList, BeginStruct, EndList, EndStruct, Finish} x 6 configurations, each followed by a final Finish. Non-trivial: the sequence contains a refused call or an intermediate Finish, and at least one value call succeeded. Distinct by digest(configuration, calls).",
+		"cases: (writer configuration in {text, pretty, binary growing table, binary fixed table, binary with three shared tables, text with three shared tables; the fixed table and the third shared table hold 300 filler symbols so that symbol IDs around 128 and 256 are used}, call sequence over the whole Writer interface with generated scalar arguments, 1-40 calls biased 75% towards protocol-legal next calls, always ending in Finish, sometimes twice). Plus exhaustive enumeration of every sequence up to length 5 (6 in the thorough tier) over a 9-call alphabet {WriteInt, WriteSymbol, FieldName, Annotation, BeginList, BeginStruct, EndList, EndStruct, Finish} x 6 configurations, each followed by a final Finish. Non-trivial: the sequence contains a refused call or an intermediate Finish, and at least one value call succeeded. Distinct by digest(configuration, calls).",
 		"oracle: (1) no panic; (2) after the first non-Finish error every later call errors; (3) if the final Finish returns nil the bytes decode under the strict reference decoder to exactly the values a reference protocol automaton builds from the calls that returned nil, and a nil-returning call the automaton cannot apply is itself a violation; (4) a second run on a fresh writer gives identical bytes and error pattern",
 		"sequences that abandon a pending field name or annotation (End*/Finish straight after FieldName/Annotation, FieldName twice, an invalid pending token) have no documented meaning: they are run for (1), (2), (4) and skipped for (3), counted under discarded.ambiguous_sequence",
 	)
